@@ -86,6 +86,27 @@ def run(chk):
         kw = {k.arg: src(k.value) for k in c.keywords}
         chk.check(kw.get("timeout") == "self.RESPONSE_TIMEOUT" and kw.get("block", "True") == "True", "R1", f"{CL}:SdoClient.read_response | bounded wait", rd.loc(c), f"{src(c)}")
 
+    # a failed exchange surfaces: outside the retry loop of request_response no handler around a request / response exchange may
+    # complete normally for an SDO error (the caller would take the transfer for done)
+    n_h = 0
+    for cname, k in repo.mod(CL, "C07.R1").classes.items():
+        for mname, m in k.methods.items():
+            if (cname, mname) == ("SdoClient", "request_response"):
+                continue
+            for t in [n for n in own_nodes(m.node) if isinstance(n, ast.Try)]:
+                if not any(isinstance(c, ast.Call) and isinstance(c.func, ast.Attribute) and c.func.attr in ("request_response", "read_response", "send_request") for b in t.body for c in ast.walk(b)):
+                    continue
+                for h in t.handlers:
+                    names = {dotted(e) for e in (h.type.elts if isinstance(h.type, ast.Tuple) else [h.type])} if h.type is not None else {"BaseException"}
+                    if not names & {"SdoError", "SdoCommunicationError", "SdoAbortedError", "Exception", "BaseException"}:
+                        continue
+                    n_h += 1
+                    recovers = any(isinstance(x, ast.Call) and (dotted(x.func) or "").split(".")[0] not in ("logger", "log", "logging") for b in h.body for x in ast.walk(b))
+                    chk.check(recovers or (always_exits(h.body) and any(isinstance(x, ast.Raise) for x in ast.walk(h))), "R1", f"{CL}:{cname}.{mname} | a failed exchange is not swallowed", m.loc(h),
+                              f"`except {', '.join(sorted(n_ for n_ in names if n_))}` around the exchange completes normally: an abort or time-out at this step is lost and the caller takes "
+                              f"the transfer for done while the server never committed it")
+    chk.ok("R1", f"{CL} | handlers around exchanges re-raise", CL, f"{n_h} handlers outside the retry loop")
+
     # ------------------------------------------------------------------ R2 flush before send
     from . import shared
     shared.client_flush(chk, "R2")
